@@ -160,6 +160,23 @@ func runC18(c *Ctx) {
 				} else {
 					okVal = false
 				}
+			case *ssa.Const:
+				// a constant is the evaluation itself where the store is guarded by that evaluation having this value
+				// (`if !aboveSoft { flag.Store(false) }`)
+				k, isBool := constBool(x)
+				found := false
+				if isBool && v == val {
+					for _, g := range guardsOf(s.Block()) {
+						gv, pol := boolOf(g)
+						if cl, ok := gv.(*ssa.Call); ok && staticCalleeFn(cl) == softFn && pol == k {
+							evals = append(evals, cl)
+							found = true
+						}
+					}
+				}
+				if !found {
+					okVal = false
+				}
 			default:
 				okVal = false
 			}
@@ -459,6 +476,8 @@ func runC18(c *Ctx) {
 	runC18More(c)
 	runC18TickerRearm(c)
 	runC18Round5(c)
+	runC18Round6(c)
+	runC18UserHold(c)
 }
 
 func runC18Wiring(c *Ctx) {
